@@ -30,9 +30,9 @@ func c06ID(sec int, tag byte) string {
 
 type c06World struct {
 	env    *corekit.Env
-	ids    []string            // prior bundle ids, in id order (rank = index)
+	ids    []string                     // prior bundle ids, in id order (rank = index)
 	trees  map[string]map[string][]byte // bundle id -> content
-	labels map[string]int      // label -> rank
+	labels map[string]int               // label -> rank
 	commit bool
 }
 
